@@ -126,6 +126,19 @@ class ExprMixin(object):
             setattr(self, name, value)
 
 
+def _exprstr(x):
+    # constants print as Python literals also under str(), so that the text still denotes the same expression
+    return str(x) if isinstance(x, ExprMixin) else repr(x)
+
+
+def _operandtext(x, conv):
+    # an operand that prints as a unary expression or as a negative number binds looser than the slot it is put into
+    text = conv(x)
+    if isinstance(x, UniExpr) or (isinstance(x, (int, float)) and not isinstance(x, bool) and x < 0):
+        return "(%s)" % (text,)
+    return text
+
+
 class UniExpr(ExprMixin):
 
     def __init__(self, op, operand):
@@ -133,10 +146,10 @@ class UniExpr(ExprMixin):
         self.operand = operand
 
     def __repr__(self):
-        return "%s %r" % (opnames[self.op], self.operand)
+        return "%s %s" % (opnames[self.op], _operandtext(self.operand, repr))
 
     def __str__(self):
-        return "%s %s" % (opnames[self.op], self.operand)
+        return "%s %s" % (opnames[self.op], _operandtext(self.operand, _exprstr))
 
     def __call__(self, obj, *args):
         operand = self.operand(obj) if callable(self.operand) else self.operand
@@ -151,10 +164,10 @@ class BinExpr(ExprMixin):
         self.rhs = rhs
 
     def __repr__(self):
-        return "(%r %s %r)" % (self.lhs, opnames[self.op], self.rhs)
+        return "(%s %s %s)" % (_operandtext(self.lhs, repr), opnames[self.op], _operandtext(self.rhs, repr))
 
     def __str__(self):
-        return "(%s %s %s)" % (self.lhs, opnames[self.op], self.rhs)
+        return "(%s %s %s)" % (_operandtext(self.lhs, _exprstr), opnames[self.op], _operandtext(self.rhs, _exprstr))
 
     def __call__(self, obj, *args):
         lhs = self.lhs(obj) if callable(self.lhs) else self.lhs
